@@ -228,6 +228,8 @@ static int check_frames(void) {
           bad |= 1;
         else if (!a->is_output)
           bad |= 2;
+        else if (y == a->wo + M->width - 1 && ((now ^ was) & ~M->high_bitmask))
+          bad |= 4; /* bits beyond the last column of an output view changed: they belong to the parent (or are padding) */
       }
   }
   return bad;
